@@ -274,6 +274,9 @@ class GenericPlainRegistry(Generic[QuantityT, UnitT], metaclass=RegistryMeta):
         #: Determines if units will be converted to preffered on appropriate operations.
         self.autoconvert_to_preferred = autoconvert_to_preferred
 
+        #: Default preferred output units for `to_preferred` (empty: keep the units).
+        self.default_preferred_units: list[Any] = []
+
         #: Default locale identifier string, used when calling format_babel without explicit locale.
         self.formatter.set_locale(fmt_locale)
 
